@@ -62,7 +62,8 @@ func (d *Driver) sendRPC(
 		}
 	}
 
-	done := make(chan []byte)
+	// buffered so the poller can always deliver the reply and exit, even if we already timed out
+	done := make(chan []byte, 1)
 
 	ctx, cancel := context.WithCancel(context.Background())
 
